@@ -57,7 +57,11 @@ def exec_from_one_connection(serversock) -> None:
     # rstrip so that we can use \r\n for telnet testing
     source = clientfile.readline().rstrip()
     clientfile.close()
-    g = {"clientsock": clientsock, "address": address, "execmodel": execmodel}
+    g = {"clientsock": clientsock, "address": address}
+    if hasattr(execmodel, "backend"):
+        # (a standalone server without execnet has no execmodel to offer,
+        # the bootstrap code sent by the initiator then creates its own)
+        g["execmodel"] = execmodel
     source = eval(source)
     if source:
         co = compile(source + "\n", "<socket server>", "exec")
@@ -116,9 +120,18 @@ if __name__ == "__main__":
     import sys
 
     hostport = sys.argv[1] if len(sys.argv) > 1 else ":8888"
-    from execnet.gateway_base import get_execmodel
+    try:
+        from execnet.gateway_base import get_execmodel
+    except ImportError:
+        # standalone use on a host where execnet is not installed:
+        # only bind_and_listen() needs something from the execmodel
+        import socket as _socket
 
-    execmodel = get_execmodel("thread")
+        class execmodel:  # type: ignore[no-redef]
+            socket = _socket
+
+    else:
+        execmodel = get_execmodel("thread")
     serversock = bind_and_listen(hostport, execmodel)
     startserver(serversock, loop=True)
 
